@@ -134,6 +134,9 @@ func CheckC13(c *Ctx) int {
 			PReopen: 0.3, OptsChoice: cs}
 		scs = append(scs, Scenario{Name: fmt.Sprintf("c13-%d-%d", c.Seed, i), Kind: "random", Seed: c.Seed*31 + int64(i), Opts: first, Profile: prof, Gen: &g, Observe: true})
 	}
+	// failed commits right after a reopen that flipped the freelist-sync option (the file's state and the
+	// session's option disagree until the first commit): rollback must still reload the committed list
+	scs = append(scs, faultScenarios("c13f", c.Pick(6, 60), c.Seed+3, false)...)
 	o := RunScenarios(scs, ValidateSpec{KV: true, Bolt: true}, filepath.Join(c.WorkDir, "runs"), 14, 5, c.ChildTimeout())
 	c.Absorb(o)
 	c.Cov["evaluations"] = o.Counters["reopen"]
